@@ -1196,32 +1196,16 @@ impl<'a> CBORValidator<'a> {
       let error_count = candidate.errors.len();
       candidate.visit_group_choice(group_choice)?;
 
-      let mut has_parent_visible_unexpected_key = false;
       if candidate.errors.len() == error_count {
         if let Some(keys) = map_keys {
           for (entry_index, key) in keys.iter().enumerate() {
+            // An alternative matches only when it accounts for every physical
+            // pair of the map; otherwise the next alternative is tried
             if Self::is_unconsumed_map_entry(entry_index, &candidate.claimed_map_entries) {
-              // Preserve the parent's existing no-retry behavior for an
-              // ordinary unmatched key. Retry only when the new multiplicity
-              // check exposes an equivalent physical pair that the parent's
-              // membership check would have hidden.
-              let has_claimed_equivalent_key = candidate
-                .claimed_map_entries
-                .iter()
-                .filter_map(|claimed_index| keys.get(*claimed_index))
-                .any(|claimed_key| claimed_key == key);
-              if !has_claimed_equivalent_key {
-                has_parent_visible_unexpected_key = true;
-              }
               candidate.add_error(format!("unexpected key {:?}", key));
             }
           }
         }
-      }
-
-      if has_parent_visible_unexpected_key {
-        *self = candidate;
-        return Ok(());
       }
 
       if candidate.errors.len() == error_count {
